@@ -54,6 +54,12 @@ func (v *verdict) err() error {
 
 // SignalCase is a list of service outcomes and a signal sequence.
 type SignalCase struct {
+	// Groups says how the services are registered: sizes of successive Add
+	// calls (empty: one Add per service).  RegMode: 0 literal arguments,
+	// 1 Add(slice...) where the caller keeps appending to / overwriting its
+	// own slice afterwards, 2 one scratch buffer reused for every group.
+	Groups   []int `json:"groups,omitempty"`
+	RegMode  int   `json:"reg_mode,omitempty"`
 	Outcomes []int `json:"outcomes"` // per service: 0 nil, 1 error, 2 panic
 	Pre      []int `json:"pre"`      // non-shutdown signals before the shutdown signal
 	Shut     int   `json:"shut"`     // the shutdown signal
@@ -118,6 +124,68 @@ func runBubble[C any](kind string, c C, what string, f func()) {
 	}
 }
 
+// register adds the services to h following the case's registration pattern.
+// Services with id >= 1000 are decoys that were never registered; the handler
+// must not call them.
+func register(h *service.SignalHandler, c SignalCase, mu *sync.Mutex, calls *[]int) {
+	mk := func(i int) service.Interface { return &svc{id: i, outcome: c.Outcomes[i], mu: mu, calls: calls} }
+	decoy := func(i int) service.Interface { return &svc{id: 1000 + i, mu: mu, calls: calls} }
+	groups := c.Groups
+	if len(groups) == 0 {
+		for i := range c.Outcomes {
+			h.Add(mk(i))
+		}
+		return
+	}
+	next := 0
+	scratch := make([]service.Interface, 0, 16)
+	var kept [][]service.Interface
+	for gi, g := range groups {
+		if next >= len(c.Outcomes) {
+			break
+		}
+		g = max(1, min(g, len(c.Outcomes)-next))
+		switch c.RegMode {
+		case 1:
+			// A caller-owned slice with spare capacity, modified after Add.
+			own := make([]service.Interface, 0, g+4)
+			for k := 0; k < g; k++ {
+				own = append(own, mk(next+k))
+			}
+			h.Add(own...)
+			kept = append(kept, own)
+		case 2:
+			scratch = scratch[:0]
+			for k := 0; k < g; k++ {
+				scratch = append(scratch, mk(next+k))
+			}
+			h.Add(scratch...)
+		default:
+			args := make([]service.Interface, 0, g)
+			for k := 0; k < g; k++ {
+				args = append(args, mk(next+k))
+			}
+			h.Add(args...)
+		}
+		next += g
+		_ = gi
+	}
+	for ; next < len(c.Outcomes); next++ {
+		h.Add(mk(next))
+	}
+	// The callers go on using their own slices: the handler must have taken
+	// what it was given at Add time.
+	for i, own := range kept {
+		own = append(own, decoy(i), decoy(100+i))
+		for k := range own {
+			own[k] = decoy(200 + k)
+		}
+	}
+	for k := range scratch[:cap(scratch)] {
+		scratch[:cap(scratch)][k] = decoy(300 + k)
+	}
+}
+
 func checkSignal(c SignalCase) error {
 	v := &verdict{}
 	runBubble("c18.signal", c, "Handle or a Shutdown call is blocked", func() {
@@ -125,9 +193,7 @@ func checkSignal(c SignalCase) error {
 		var calls []int
 		n := &notifier{}
 		h := service.NewSignalHandler(&service.SignalHandlerConfig{SignalNotifier: n, Logger: slogutil.NewDiscardLogger(), ShutdownTimeout: time.Second})
-		for i, o := range c.Outcomes {
-			h.Add(&svc{id: i, outcome: o, mu: &mu, calls: &calls})
-		}
+		register(h, c, &mu, &calls)
 		done := make(chan osutil.ExitCode, 1)
 		go func() {
 			defer func() {
@@ -200,6 +266,9 @@ func checkSignal(c SignalCase) error {
 	if len(c.Pre) > 0 {
 		vp.Class("signal:with-ignored-signals")
 	}
+	if len(c.Groups) > 0 && c.RegMode > 0 {
+		vp.Class("signal:registered-through-caller-owned-slices")
+	}
 	if len(c.Outcomes) >= 2 && nonNil >= 1 {
 		vp.Class("signal:>=2-services-with-a-failure")
 		vp.NonTrivialStr("c18.signal", fmt.Sprintf("%+v", c))
@@ -212,6 +281,8 @@ var signalProp = vp.Register(vp.Prop[SignalCase]{
 	Kind: "c18.signal", Base: 8000,
 	Gen: func(t *rapid.T) SignalCase {
 		return SignalCase{
+			Groups:   rapid.SliceOfN(rapid.IntRange(1, 4), 0, 4).Draw(t, "groups"),
+			RegMode:  rapid.IntRange(0, 2).Draw(t, "regmode"),
 			Outcomes: rapid.SliceOfN(rapid.SampledFrom([]int{0, 0, 1, 2}), 0, 6).Draw(t, "outcomes"),
 			Pre:      rapid.SliceOfN(rapid.SampledFrom([]int{1, 10, 12, 13, 17, 28}), 0, 6).Draw(t, "pre"),
 			Shut:     rapid.SampledFrom([]int{2, 3, 15}).Draw(t, "shut"),
